@@ -39,6 +39,7 @@ import (
 	"github.com/Cloud-Foundations/keymaster/keymasterd/admincache"
 	"github.com/Cloud-Foundations/keymaster/keymasterd/eventnotifier"
 	"github.com/Cloud-Foundations/keymaster/lib/instrumentedwriter"
+	"github.com/Cloud-Foundations/keymaster/lib/server/aws_identity_cert"
 	"github.com/Cloud-Foundations/keymaster/lib/simplestorage"
 	"github.com/go-jose/go-jose/v4"
 	"github.com/go-jose/go-jose/v4/jwt"
@@ -151,6 +152,9 @@ type vWorld struct {
 }
 
 type vWorldOpts struct {
+	Realm      string
+	SSHExt     []sshExtension
+	AWS        bool
 	Sealed     bool
 	Ed25519    bool
 	CertCfg    []string
@@ -189,6 +193,26 @@ func newWorld(o vWorldOpts) *vWorld {
 	st.Config.Base.AdminUsers = o.AdminUsers
 	if o.CLITokens {
 		st.Config.Base.WebauthTokenForCliLifetime = time.Hour
+	}
+	if o.Realm != "" {
+		st.Config.Base.KerberosRealm = o.Realm
+		st.KerberosRealm = &st.Config.Base.KerberosRealm
+	}
+	st.Config.Base.SSHCertConfig.Extensions = o.SSHExt
+	if o.AWS {
+		st.Config.AwsCerts.AllowedAccounts = []string{vAwsAccount}
+		vMust(st.configureAwsRoles())
+		var err error
+		st.awsCertIssuer, err = aws_identity_cert.New(aws_identity_cert.Params{
+			CertificateGenerator: st.generateRoleCert,
+			AccountIdValidator:   st.checkAwsAccountAllowed,
+			FailureWriter: func(w http.ResponseWriter, r *http.Request, errorString string, code int) {
+				st.writeFailureResponse(w, r, code, errorString)
+			},
+			HttpClient: &http.Client{Transport: vFakeSTS{}},
+			Logger:     st.logger,
+		})
+		vMust(err)
 	}
 	w := &vWorld{st: st, dir: dir, sealed: o.Sealed}
 	w.pw = &vPwBackend{pw: map[string]string{"alice": "pw-alice", "bob": "pw-bob", "admin": "pw-admin", "carol": "pw-carol"}}
@@ -251,6 +275,24 @@ func (w *vWorld) Close() {
 	}
 	os.RemoveAll(w.dir)
 }
+
+// ---------------------------------------------------------------------------
+// fake AWS STS: answers any presigned GetCallerIdentity URL with a fixed assumed-role ARN
+
+const vAwsAccount = "123456789012"
+const vAwsRoleArn = "arn:aws:iam::" + vAwsAccount + ":role/verifrole"
+
+type vFakeSTS struct{}
+
+func (vFakeSTS) RoundTrip(r *http.Request) (*http.Response, error) {
+	body := `<GetCallerIdentityResponse xmlns="https://sts.amazonaws.com/doc/2011-06-15/"><GetCallerIdentityResult><Arn>arn:aws:sts::` +
+		vAwsAccount + `:assumed-role/verifrole/i-0123456789</Arn><UserId>X</UserId><Account>` + vAwsAccount +
+		`</Account></GetCallerIdentityResult></GetCallerIdentityResponse>`
+	return &http.Response{StatusCode: 200, Header: http.Header{}, Body: io.NopCloser(strings.NewReader(body)), Request: r}, nil
+}
+
+var vAwsHeaders = map[string]string{"claimed-arn": vAwsRoleArn, "presigned-method": "GET",
+	"presigned-url": "https://sts.us-east-1.amazonaws.com/?Action=GetCallerIdentity&Version=2011-06-15&X-Amz-Signature=abc"}
 
 // ---------------------------------------------------------------------------
 // requests
